@@ -9,63 +9,68 @@ def thms(ns, names):
 
 REG = {
     "C01": {
-        "modules": ["VProofs.Props.C01", "VProofs.Props.Pandas", "VProofs.Props.PyList"],
+        "modules": ["VProofs.Props.C01", "VProofs.Props.Pandas", "VProofs.Props.PyList", "VProofs.Props.Numpy"],
         "theorems": thms("C01", ["C01_detect", "C01_pandas", "C01_pandas_model"]) + ["V.Pd.built_typeset", "V.PandasProps.C01_pandas_built",
-                                                                                     "V.PyProps.C01_list", "V.PyProps.C01_list_built"],
-        "runners": ["pandas", "engine", "numpy", "list", "algebra", "frame"],
+                                                                                     "V.PyProps.C01_list", "V.PyProps.C01_list_built", "V.NumpyProps.C01_numpy_built"],
+        "runners": ["pandas", "engine", "numpy", "list", "algebra", "frame", "api"],
         "relevant": ["contains", "detect"],
     },
     "C02": {
-        "modules": ["VProofs.Props.C02", "VProofs.Props.Pandas"],
+        "modules": ["VProofs.Props.C02", "VProofs.Props.Pandas", "VProofs.Props.Numpy"],
         "theorems": thms("C02", ["C02_order_indep", "C02_mutex_generic_pandas", "dtype_partition", "contains_dtypePred",
                                  "C02_mutex_object_pandas", "C02_mutex_string_pandas", "C02_witness_F10"])
-                    + ["V.Pd.pandas_WF", "V.Pd.outputs_good", "V.Pd.goodB_sound", "V.PandasProps.C02_pandas"],
+                    + ["V.Pd.pandas_WF", "V.Pd.outputs_good", "V.Pd.goodB_sound", "V.PandasProps.C02_pandas",
+                       "V.Np.numpy_WF", "V.Np.excl_generic_np", "V.Np.excl_string_np", "V.Np.object_never_boolean", "V.NumpyProps.C02_numpy"],
         "runners": ["pandas", "numpy"],
         "relevant": ["contains", "guard", "infer-path", "infer-outcome", "detect-path", "relation-missing"],
     },
     "C03": {
-        "modules": ["VProofs.Props.C03", "VProofs.Props.Pandas"],
+        "modules": ["VProofs.Props.C03", "VProofs.Props.Pandas", "VProofs.Props.Numpy"],
         "theorems": thms("C03", ["C03_infer_sound", "C03_lands_step", "C03_lands_pandas"])
                     + ["V.Pd.pandas_WF", "V.Pd.outputs_good", "V.Pd.goodB_sound", "V.Pd.built_typeset", "V.PandasProps.C03_pandas", "V.PandasProps.C03_pandas_model",
-                       "V.PandasProps.infer_pandas_complete"],
-        "runners": ["pandas", "numpy", "list", "frame"],
+                       "V.PandasProps.infer_pandas_complete",
+                       "V.Np.numpy_WF", "V.Np.lands_closed_np", "V.NumpyProps.C03_numpy", "V.NumpyProps.C03_numpy_model"],
+        "runners": ["pandas", "numpy", "list", "frame", "api"],
     },
     "C04": {
-        "modules": ["VProofs.Props.C04", "VProofs.Props.Pandas"],
-        "theorems": thms("C04", ["C04_fixpoint"]) + ["V.Pd.pandas_WF", "V.Pd.outputs_good", "V.Pd.goodB_sound", "V.PandasProps.C04_pandas"],
-        "runners": ["pandas", "numpy", "list", "frame"],
+        "modules": ["VProofs.Props.C04", "VProofs.Props.Pandas", "VProofs.Props.Numpy"],
+        "theorems": thms("C04", ["C04_fixpoint"]) + ["V.Pd.pandas_WF", "V.Pd.outputs_good", "V.Pd.goodB_sound", "V.PandasProps.C04_pandas",
+                                                     "V.Np.numpy_WF", "V.NumpyProps.C04_numpy"],
+        "runners": ["pandas", "numpy", "list", "frame", "api"],
     },
     "C15": {
-        "modules": ["VProofs.Props.C15", "VProofs.Props.Pandas"],
-        "theorems": thms("C15", ["C15_detect", "C15_infer"]) + ["V.Pd.pandas_WF", "V.Pd.outputs_good", "V.Pd.goodB_sound", "V.PandasProps.succ_restrict_perm", "V.PandasProps.C15_pandas"],
+        "modules": ["VProofs.Props.C15", "VProofs.Props.Pandas", "VProofs.Props.Numpy"],
+        "theorems": thms("C15", ["C15_detect", "C15_infer"]) + ["V.Pd.pandas_WF", "V.Pd.outputs_good", "V.Pd.goodB_sound", "V.PandasProps.succ_restrict_perm", "V.PandasProps.C15_pandas",
+                                                                "V.Np.numpy_WF", "V.NumpyProps.C15_numpy"],
         "runners": ["pandas", "list", "numpy", "algebra"],
         "relevant": ["contains", "guard", "infer-path", "infer-outcome", "detect-path", "relation-missing"],
     },
     "C16": {
-        "modules": ["VProofs.Props.C16", "VProofs.Props.Pandas"],
+        "modules": ["VProofs.Props.C16", "VProofs.Props.Pandas", "VProofs.Props.Numpy"],
         "theorems": thms("C16", ["C16_chain", "C16_nested_pandas", "C16_witness_F26", "C16_witness_F27", "on_path_of_contains"])
-                    + ["V.Pd.pandas_WF", "V.Pd.outputs_good", "V.Pd.goodB_sound", "V.PandasProps.C16_pandas"],
-        "runners": ["pandas", "numpy"],
+                    + ["V.Pd.pandas_WF", "V.Pd.outputs_good", "V.Pd.goodB_sound", "V.PandasProps.C16_pandas",
+                       "V.Np.numpy_WF", "V.Np.nested_np", "V.NumpyProps.C16_numpy"],
+        "runners": ["pandas", "numpy", "api"],
         "relevant": ["contains", "detect-path"],
     },
     "C05": {
         "modules": ["VProofs.Props.C05"],
         "theorems": thms("C05", ["C05_detected_is_input", "C05_inferred_is_input_when_no_coercion",
                                  "no_coercion_returns_input"]),
-        "runners": ["engine", "pandas", "frame", "numpy", "list"],
+        "runners": ["engine", "pandas", "frame", "numpy", "list", "api"],
         "relevant": [],
         "partial": "in-place mutation and element identity are runtime facts: observed by deep snapshots, not provable",
     },
     "C08": {
         "modules": ["VProofs.Props.C08"],
         "theorems": thms("C08", ["C08_labels", "C08_frame_map", "C08_subframe", "C08_compare", "C08_functional"]),
-        "runners": ["engine", "frame"],
+        "runners": ["engine", "frame", "api"],
     },
     "C06": {
         "modules": ["VProofs.Props.C06"],
         "theorems": thms("C06", ["C06_shape", "C06_lossless_float_integer", "C06_lossless_complex_float",
                                  "C06_lossless_datetime_date", "oks_length", "C06_shape_infer", "C06_nulls_step"]) + ["V.Pd.nulls_pandas"],
-        "runners": ["pandas", "frame", "family", "numpy", "list"],
+        "runners": ["pandas", "frame", "family", "numpy", "list", "api"],
         "relevant": ["xform", "infer-data", "guard", "relation-missing"],
     },
     "C07": {
@@ -83,14 +88,14 @@ REG = {
                                  "C09_detect_total_pandas", "C09_total_guards", "C09_total_xforms", "C09_witness_F29",
                                  "C09_infer_total_pandas", "C09_hypotheses_executable"])
                     + ["V.Pd.infer_total", "V.Pd.guardsOk_of_outCol", "V.Pd.outputs_good", "V.traverse_total_inv"],
-        "runners": ["pandas", "numpy", "list", "exotic"],
+        "runners": ["pandas", "numpy", "list", "exotic", "api"],
         "relevant": ["contains", "guard", "xform-outcome", "infer-outcome", "detect-outcome", "relation-missing"],
     },
     "C10": {
         "modules": ["VProofs.Props.C10"],
         "theorems": thms("C10", ["C10_frame", "C10_history", "stringIsGeometry_restores", "suppressWarnings_id",
                                  "C10_witness_F01"]),
-        "runners": ["history", "engine", "list", "algebra"],
+        "runners": ["history", "engine", "list", "algebra", "api", "graph"],
         "partial": "the model cannot exhibit global state it does not name, nor hash-seed / process dependence: observed by the History runner",
     },
     "C11": {
@@ -106,7 +111,7 @@ REG = {
         "modules": ["VProofs.Props.C12"],
         "theorems": thms("C12", ["C12_sound", "C12_complete", "C12_deterministic", "C12_state", "C12_state_detect",
                                  "C12_frame_fresh"]),
-        "runners": ["engine"],
+        "runners": ["engine", "api"],
     },
     "C13": {
         "modules": ["VProofs.Props.C13"],
